@@ -252,14 +252,17 @@ def run(tier, seed, only=None):
     timeout_ms = 60000 if tier == 'quick' else 600000
     table = witness.load_table()
 
-    def go():
-        for kind in ('mvp', 'bulk', 'unused-bulk-in-dead-code'):
-            run_scenario(ctx, report, 'mvp-module/' + kind, mvp_spec(kind), table, timeout_ms)
-        run_scenario(ctx, report, 'mvp-module/mvp+gc', mvp_spec('mvp'), table, timeout_ms, gc=True)
-        for v in ((0,) if tier == 'quick' else (0, 1, 2)):
-            run_scenario(ctx, report, 'full-module/variant%d' % v, scen.full_module(v), table, timeout_ms)
-    engine.run_in_big_stack(go)
-    report.bounds = {'descriptions': 'an MVP module (block types empty/result/inline-able type indices, memory and table immediates 0, active segments only), the same with bulk-memory use, with bulk-memory operators only in dead code, after GC, and the full module(s)',
+    from obligations import gen
+    gl = gen.generated(tier, seed)
+    items = [('mvp-module/' + kind, mvp_spec(kind), table, timeout_ms, False) for kind in ('mvp', 'bulk', 'unused-bulk-in-dead-code')]
+    items.append(('mvp-module/mvp+gc', mvp_spec('mvp'), table, timeout_ms, True))
+    for v in ((0,) if tier == 'quick' else (0, 1, 2)):
+        items.append(('full-module/variant%d' % v, scen.full_module(v), table, timeout_ms, False))
+    for name, sp in gl:
+        items += [(name, sp, table, timeout_ms, False), (name + '+gc', sp, table, timeout_ms, True)]
+    items = [i for i in items if not only or i[0] in only]
+    pc.run_parallel(ctx, report, run_scenario, items)
+    report.bounds = {'generated': gen.bounds_text(tier, len(gl)) + ' x {emit, gc+emit}', 'descriptions': 'an MVP module (block types empty/result/inline-able type indices, memory and table immediates 0, active segments only), the same with bulk-memory use, with bulk-memory operators only in dead code, after GC, and the full module(s)',
                      'proposals': ', '.join(FEATS)}
     report.assumptions = ['"validates under the smallest feature set" is claimed as "needs no proposal the input does not need" by a reference need() function; the real validator is only used in replay',
                           'proposal of each opcode: codec table (from wasmparser\'s for_each_operator!)']
